@@ -2,6 +2,7 @@ import TemplVerif.Spec.HtmlTok
 import TemplVerif.Model.Attrs
 import TemplVerif.Proofs.Html
 import TemplVerif.Model.Sinks
+import TemplVerif.Proofs.Compose
 /-
 C01 — interpolated strings never change HTML structure (text and attribute contexts).
 `Html.escape` models templ.EscapeString; `HtmlTok` is the tokenizer specification.
@@ -75,5 +76,54 @@ example : (run {} [60, 112, 32, 116, 105, 116, 108, 101, 61, 34]).st = .attrDQ :
 example : (run {} [60, 112, 62]).st = .data := by decide
 example : tokenize ([60, 112, 62] ++ escape [60, 98, 62, 38, 34] ++ [60, 47, 112, 62]) =
     [.startTag [112] [] false, .text [60, 98, 62, 38, 34], .endTag [112]] := by decide
+
+/-! ## Composition: whole templates
+
+The theorems above are about one hole. `C01_compose` puts them together over the template semantics of C02
+(`Denote`, which the generator model refines and the real generated code is compared with on every run): for EVERY
+template body of the markup fragment and EVERY environment — every string value, every boolean, every iteration —
+whose rendering does not fail, the tokenizer reads the rendered bytes as exactly the token stream the author wrote
+(`Expect.tokens`: the template's tags and attributes in order; each interpolated string verbatim inside its text run
+or as its attribute's whole value). -/
+theorem C01_compose (body : Ast.Nodes) (env : Sem.Env) (hf : Expect.nodesOK body = true)
+    (hok : (Denote.run body env).err = false) :
+    tokenize (Denote.run body env).out = Expect.tokens body env :=
+  Proofs.Compose.compose true body env hf hok
+
+/-- The same for the reading that announces unreached class / script expressions (today's generator, C02). -/
+theorem C01_compose_hoistAll (body : Ast.Nodes) (env : Sem.Env) (hf : Expect.nodesOK body = true)
+    (hok : (Denote.runHoistAll body env).err = false) :
+    tokenize (Denote.runHoistAll body env).out = Expect.tokens body env :=
+  Proofs.Compose.compose false body env hf hok
+
+/-- Static text that does not stop inside a character reference decodes the same whatever follows it: the
+    hypothesis `textOK` of the fragment is what makes a following string appear verbatim. -/
+theorem C01_static_text_closed (v w : Bytes) (h : Expect.openRef false v = false) :
+    decodeRefs (v ++ w) = decodeRefs v ++ decodeRefs w := Proofs.Compose.decode_append_closed v w h
+
+/-- Non-vacuity: `<p title={ s } hidden?={ c }>a&amp;b { s }<br></p>` is in the fragment, and with s = `<"&`
+    the tokenizer reads the author's tags with the string verbatim twice. -/
+def sample : Ast.Nodes :=
+  .cons (.element [112] (.cons (.expr [116, 105, 116, 108, 101] [115]) (.cons (.boolExpr [104, 105, 100, 100, 101, 110] [99]) .nil))
+    (.cons (.text [97, 38, 97, 109, 112, 59, 98] .horiz) (.cons (.strExpr [115] .none)
+      (.cons (.element [98, 114] .nil .nil .none false false) .nil))) .none false false) .nil
+def sampleEnv : Sem.Env :=
+  [([115], { keys := [], val := .str [60, 34, 38] false }), ([99], { keys := [], val := .bool true })]
+example : Expect.nodesOK sample = true := by decide
+example : (Denote.run sample sampleEnv).err = false := by decide
+example : Expect.tokens sample sampleEnv =
+    [.startTag [112] [([116, 105, 116, 108, 101], [60, 34, 38]), ([104, 105, 100, 100, 101, 110], [])] false,
+     .text [97, 38, 98, 32, 60, 34, 38], .startTag [98, 114] [] false, .endTag [112]] := by decide
+
+/-- Why `textOK` is a hypothesis (known finding `text;static-ampersand-before-hole`): in `<p>&{ s }</p>` the static
+    text stops inside a character reference, and the string `lt;` completes it — the tokenizer reads the text `<`,
+    not `&lt;`. The tags are unchanged, but the string does not appear verbatim. -/
+def ampBody : Ast.Nodes :=
+  .cons (.element [112] .nil (.cons (.text [38] .none) (.cons (.strExpr [115] .none) .nil)) .none false false) .nil
+def ampEnv : Sem.Env := [([115], { keys := [], val := .str [108, 116, 59] false })]
+theorem C01_static_ampersand_counterexample :
+    Expect.nodesOK ampBody = false ∧ (Denote.run ampBody ampEnv).err = false ∧
+    tokenize (Denote.run ampBody ampEnv).out = [.startTag [112] [] false, .text [60], .endTag [112]] ∧
+    Expect.tokens ampBody ampEnv = [.startTag [112] [] false, .text [38, 108, 116, 59], .endTag [112]] := by decide
 
 end TemplVerif.Props.C01
